@@ -116,16 +116,27 @@ Section Facts4.
                      fold (SolverFacts.afterk num after o t (S j) v'). rewrite Hv'.
                      destruct (afterk (S j) (st_after (S j))) as [v'' [c|]]; reflexivity.
                   ** apply Hcont. exact Hl.
-            -- unfold result_at. replace (S j - 1)%nat with j by lia. rewrite E, Fc. unfold hard. rewrite Hv'.
-               destruct (errors o) eqn:Ee; cbn [orb]; try reflexivity.
+            -- unfold hard.
+               assert (Hstop : result_at (S j) lg =
+                         match errors o with
+                         | ERaise => LRaise v' (Some (ErrorSt, S j)) (SolutionError None) (lg ++ pass_events 1 (S j))
+                         | ESkip => LDone v' Skipped (S j) (lg ++ pass_events 1 (S j))
+                         | EInvalid => LRaise v' None ValueError (lg ++ pass_events 1 (S j))
+                         | EIgnore | EReplace => LDone v' Failed (S j) (lg ++ pass_events 1 (S j))
+                         end).
+               { unfold result_at. replace (S j - 1)%nat with j by lia. rewrite E, Fc, Hv'. reflexivity. }
+               destruct (errors o) eqn:Ee; cbn [orb].
+               ++ (* raise *) rewrite Hstop. reflexivity.
+               ++ (* skip *) rewrite Hstop. reflexivity.
                ++ (* ignore *) destruct n as [|n'].
-                  ** replace (S j =? N)%nat with true by (symmetry; apply Nat.eqb_eq; lia). reflexivity.
+                  ** replace (S j =? N)%nat with true by (symmetry; apply Nat.eqb_eq; lia). rewrite Hstop. reflexivity.
                   ** replace (S j =? N)%nat with false by (symmetry; apply Nat.eqb_neq; lia).
-                     rewrite <- Hv'. apply Hcont. rewrite lcur_S, Ee. reflexivity.
+                     apply Hcont. rewrite lcur_S, Ee. reflexivity.
                ++ (* replace *) destruct n as [|n'].
-                  ** replace (S j =? N)%nat with true by (symmetry; apply Nat.eqb_eq; lia). reflexivity.
+                  ** replace (S j =? N)%nat with true by (symmetry; apply Nat.eqb_eq; lia). rewrite Hstop. reflexivity.
                   ** replace (S j =? N)%nat with false by (symmetry; apply Nat.eqb_neq; lia).
-                     rewrite <- Hv'. apply Hcont. rewrite lcur_S, Ee, Fp, Fc. reflexivity.
+                     apply Hcont. rewrite lcur_S, Ee, Fp, Fc. reflexivity.
+               ++ (* invalid *) rewrite Hstop. reflexivity.
           * apply Hcont. rewrite lcur_S, Fp, andb_false_r. reflexivity.
     Qed.
 
